@@ -55,10 +55,11 @@ type psSessPlan struct {
 	pre            pause
 	maxRecv        int // -1 unlimited; manual >= 0; iterator >= 1
 	trigger        bool
-	preCancel      int // iterator-cancelled-first: 0 cancel after SubscribeContext returned, 1 before the call, 2 racing the call
-	trigSend       int // canceller waits for this (global) Send index to be invoked ...
-	trigStall      int // ... then stalls this many steps, then withdraws the subscription
-	stallAfterRecv int // manual: steps between the receive and Wait (slow subscriber); iterator: steps in the loop body
+	leaveByPanic   bool // iterator with maxRecv > 0: leave the loop by a panic out of the body instead of break
+	preCancel      int  // iterator-cancelled-first: 0 cancel after SubscribeContext returned, 1 before the call, 2 racing the call
+	trigSend       int  // canceller waits for this (global) Send index to be invoked ...
+	trigStall      int  // ... then stalls this many steps, then withdraws the subscription
+	stallAfterRecv int  // manual: steps between the receive and Wait (slow subscriber); iterator: steps in the loop body
 	stallAfterWait int
 	startStall     int   // iterator: steps between SubscribeContext and the first use
 	cancelPause    pause // never-run: before the cancel
@@ -182,6 +183,7 @@ func drawPSSession(prof psProfile, totalSends int) psSessPlan {
 	case psIter:
 		if simrt.Chance(1, 2) {
 			s.maxRecv = simrt.DrawRange(1, 3)
+			s.leaveByPanic = simrt.Chance(1, 4)
 		}
 	}
 	if (s.kind == psManual || s.kind == psIter) && simrt.Chance(3, 5) {
@@ -344,25 +346,40 @@ func (r *psRun) iterLoop(s *psSub) {
 	n := 0
 	broke := false
 	s.state = "iterating"
-	for v := range s.seq {
-		s.state = "in loop body"
-		s.recs = append(s.recs, psRec{val: v, at: simrt.Stamp()})
-		n++
-		if sp.maxRecv > 0 && n >= sp.maxRecv {
-			if s.wdInv == 0 {
-				s.wdInv = simrt.Stamp()
+	func() {
+		// leaving the loop early may also be a panic out of the loop body (recovered here, by the
+		// subscriber): the iterator must unsubscribe on that path too
+		defer func() {
+			if x := recover(); x != nil {
+				if x != psBodyPanic {
+					panic(x)
+				}
 			}
-			if s.cancelInv == 0 {
-				broke = true
+		}()
+		for v := range s.seq {
+			s.state = "in loop body"
+			s.recs = append(s.recs, psRec{val: v, at: simrt.Stamp()})
+			n++
+			if sp.maxRecv > 0 && n >= sp.maxRecv {
+				if s.wdInv == 0 {
+					s.wdInv = simrt.Stamp()
+				}
+				if s.cancelInv == 0 {
+					broke = true
+				}
+				if sp.leaveByPanic {
+					simrt.Probe("iterator_body_panic")
+					panic(psBodyPanic)
+				}
+				simrt.Probe("iterator_early_break")
+				break
 			}
-			simrt.Probe("iterator_early_break")
-			break
+			if sp.stallAfterRecv > 0 {
+				simrt.Stall(sp.stallAfterRecv)
+			}
+			s.state = "iterating"
 		}
-		if sp.stallAfterRecv > 0 {
-			simrt.Stall(sp.stallAfterRecv)
-		}
-		s.state = "iterating"
-	}
+	}()
 	if broke && s.cancelInv == 0 {
 		// the iterator owned the unsubscribe (no cancel had even been requested when it returned)
 		s.wdRet = simrt.Stamp()
@@ -375,6 +392,9 @@ func (r *psRun) iterLoop(s *psSub) {
 	}
 	s.state = "ended"
 }
+
+// psBodyPanic is the value panicked with by a loop body that leaves an iterator that way.
+var psBodyPanic = any("c06: scripted panic out of the iterator's loop body")
 
 // --- tasks ---------------------------------------------------------------------------------------
 
